@@ -99,6 +99,12 @@ func c05cfg(n int, es [][2]int, kinds []int, scopes []int) *Cfg {
 		}
 		return false
 	}
+	// every service also depends on a parameter (parameters are nodes of the same graph as services)
+	cfg.Params = []Param{{"common", "shared-param"}}
+	for i := range svcs {
+		svcs[i].Fields = append(svcs[i].Fields, KV{"F2", "%common%"})
+	}
+	svcs[0].Getter, svcs[0].MustGetter = P("FetchSa"), P(true)
 	for ei, e := range es {
 		a, b := &svcs[e[0]], &svcs[e[1]]
 		switch c05kinds[kinds[ei]] {
@@ -106,9 +112,7 @@ func c05cfg(n int, es [][2]int, kinds []int, scopes []int) *Cfg {
 			a.Args = append(a.Args, "@"+b.Name)
 		case "field":
 			f := "F1"
-			if len(a.Fields) == 1 {
-				f = "F2"
-			} else if len(a.Fields) == 2 {
+			if len(a.Fields) >= 2 {
 				f = "f3"
 			}
 			a.Fields = append(a.Fields, KV{f, "@" + b.Name})
@@ -360,14 +364,14 @@ func init() {
 			}{
 				{"carries-tag-named-like-service", func(c *Cfg) { c.Services[0].Tags = append(c.Services[0].Tags, Tag{Name: "sb"}, Tag{Name: "sc"}) }},
 				{"param-named-like-service", func(c *Cfg) {
-					c.Params = []Param{{"sb", 1}, {"sc", "%sb%"}}
+					c.Params = append(c.Params, Param{"sb", 1}, Param{"sc", "%sb%"})
 					c.Services[0].Args = []any{"%sb%", "%sc%"}
 				}},
 				{"requests-tag-named-like-service", func(c *Cfg) { c.Services[0].Args = []any{"!tagged sb", "!tagged sc"} }},
 				{"decorated-on-tag-named-like-service", func(c *Cfg) {
 					c.Services[0].Tags = append(c.Services[0].Tags, Tag{Name: "sc"})
 					c.Decorators = []Decorator{{Tag: "sc", Decorator: "pk2.Dec1", Args: []any{"%sb%"}}}
-					c.Params = []Param{{"sb", 1}}
+					c.Params = append(c.Params, Param{"sb", 1})
 				}},
 			}
 			for _, col := range collide {
@@ -405,6 +409,8 @@ func init() {
 				for _, n := range c05names(3) {
 					alphabet = append(alphabet, op("get", n), opCtx("getctx", "A", n), opCtx("getctx", "B", n))
 				}
+				// the typed API of the first service: getter, its InContext twin and the Must twins
+				alphabet = append(alphabet, op("getter", "FetchSa"), opCtx("getterctx", "A", "FetchSaInContext"), opCtx("mustgetterctx", "A", "MustFetchSaInContext"), op("mustgetter", "MustFetchSa"))
 				tags := map[string]bool{}
 				for _, s := range cfg.Services {
 					for _, t := range s.Tags {
@@ -425,8 +431,8 @@ func init() {
 			for gi, es := range dags3 {
 				kinds := make([]int, len(es))
 				scopeVecs(3, func(sc []int) {
-					if w.Env.Quick() && gi%3 != 0 && !(len(es) == 2) {
-						return // quick: every third DAG plus all 2-edge DAGs
+					if w.Env.Quick() && gi%4 != 0 && !(len(es) == 2 && gi%2 == 0) {
+						return // quick: every fourth DAG plus half of the 2-edge DAGs
 					}
 					addHist(fmt.Sprintf("hist/g%d/ctor/scopes=%v", gi, sc), es, kinds, append([]int{}, sc...))
 				})
